@@ -70,7 +70,7 @@ def gen(seed, tier):
     suspend_heavy = rng.random() < 0.3
     focus = rng.choice([('p', 1), ('is_a', 1), ('r', 1), ('sub', 1)])
     focus_snips = [i for i, (_, d) in enumerate(SNIPPETS) if focus in d and d[focus][0] == 'rows']
-    for _ in range(rng.randrange(3, 21)):
+    for _ in range(rng.randrange(3, 21 * (2 if tier == 'thorough' else 1))):
         k = rng.random()
         if suspend_heavy:
             # many calls kept suspended on one predicate while definitions of that predicate are appended
